@@ -209,7 +209,7 @@ class Materials:
         return [{"bin": os.path.join(ANCHORS, f), "len": os.path.getsize(os.path.join(ANCHORS, f)), "selfparse": True} for f in names]
 
     # ---- header segments
-    def fcb(self, fam, rev, mt, size):  # noqa: C901
+    def fcb(self, fam, rev, mt, size):
         """A flash configuration block of the family (registers at their reset values, tag forced, LUT area randomised)."""
         from spsdk.image.fcb.fcb import FCB
         from spsdk.image.mem_type import MemoryType
@@ -326,8 +326,8 @@ def table_menus(tables, triples, mats, small=False):
                 s["lens"] = [n for n in s["lens"] if n <= rm]       # payload sizes up to the next segment's offset
             if not s["lens"]:
                 raise Machinery(f"no payload fits segment {s['name']} of table {t['sig']}")
-            if small and s["name"] == "xmcd" and len(s["lens"]) > 2:
-                s["lens"] = [s["lens"][0], s["lens"][-1]]       # XMCD parsing costs ~0.5 s: shortest and longest block only
+            if s["name"] == "xmcd" and len(s["lens"]) > 2:      # XMCD parsing costs ~0.5 s per attempt: shortest, (a middle one,) longest block
+                s["lens"] = [s["lens"][0], s["lens"][-1]] if small else [s["lens"][0], s["lens"][-2], s["lens"][-1]]
 
 
 def version_bytes(name, v):
@@ -541,31 +541,54 @@ def validate(v, tables, table_file, traces):
     return rej
 
 
-def canary(tables, table_file, traces):
-    """One accepted real trace must stay accepted, and be rejected after corrupting one logged number / fact."""
-    good = next((t for t in traces if t["ev"][-1]["ev"] == "Done" and sum(1 for e in t["ev"] if e["ev"] == "Seg") >= 2
-                 and any(e["ev"] == "Gap" for e in t["ev"])), None)
-    if good is None:
-        raise Machinery("no complete trace with two segments and a gap for the canary")
+def synthetic_trace(case, tid):
+    """The trace a correct implementation produces for a GEN case, built from the placement TLC emitted with the case."""
+    ev = [{"ev": "Build", "refused": False, "eff": case["eff"]}]
+    cur = 0
+    inc = [(i, p) for i, p in enumerate(case["place"]) if p[0] >= 0]
+    for i, (off, n) in inc:
+        if off > cur:
+            ev.append({"ev": "Gap", "from": cur, "to": off, "pat": True})
+        ev.append({"ev": "Seg", "i": i + 1, "at": off, "len": n, "ok": True, "apiOff": off, "apiLen": n})
+        cur = off + n
+    ev.append({"ev": "End", "total": case["total"], "apiLen": case["total"]})
+    ev.append({"ev": "Parse", "ok": True, "init": case["eff"]})
+    for i, (off, n) in inc:
+        ev.append({"ev": "PSeg", "i": i + 1, "present": True, "plen": n, "prefixOk": True, "tailPat": True})
+    ev.append({"ev": "Done"})
+    return {"id": tid, "tb": case["tb"], "present": case["present"], "plen": case["plen"], "req": case["req"], "ev": ev}
+
+
+def canary(cases, table_file):
+    """A known-good trace (built from a case and the placement the spec itself emitted - independent of SPSDK) must be accepted,
+    and rejected after corrupting one logged number / fact."""
+    case = next((c for c in cases if not c["refused"] and c["eff"] > 0 and sum(1 for p in c["place"] if p[0] >= 0) >= 2
+                 and any(p[0] > 0 for p in c["place"]) and c["total"] > sum(p[1] for p in c["place"])), None)
+    if case is None:
+        raise Machinery("no case with a later start, two segments and a gap for the canary")
     variants = []
 
     def variant(name, fn):
-        t = json.loads(json.dumps(strip(good)))
-        t["id"] = name
-        fn(t)
+        t = synthetic_trace(case, name)
+        fn(t["ev"])
         variants.append(t)
 
-    variant("canary-good", lambda t: None)
-    variant("canary-offset", lambda t: next(e for e in t["ev"] if e["ev"] == "Seg" and e["at"] > 0).update(at=next(e for e in t["ev"] if e["ev"] == "Seg" and e["at"] > 0)["at"] + 1))
-    variant("canary-gap", lambda t: next(e for e in t["ev"] if e["ev"] == "Gap").update(pat=False))
-    variant("canary-total", lambda t: next(e for e in t["ev"] if e["ev"] == "End").update(total=next(e for e in t["ev"] if e["ev"] == "End")["total"] + 4))
-    variant("canary-parse", lambda t: [e for e in t["ev"] if e["ev"] == "PSeg"][-1].update(prefixOk=False))
-    variant("canary-eff", lambda t: t["ev"][0].update(eff=t["ev"][0]["eff"] + 1024))
+    first = lambda ev, k, cond=lambda e: True: next(e for e in ev if e["ev"] == k and cond(e))  # noqa: E731
+    variant("canary-good", lambda ev: None)
+    variant("canary-offset", lambda ev: first(ev, "Seg", lambda e: e["at"] > 0).update(at=first(ev, "Seg", lambda e: e["at"] > 0)["at"] + 1))
+    variant("canary-api-offset", lambda ev: first(ev, "Seg").update(apiOff=first(ev, "Seg")["apiOff"] + 1))
+    variant("canary-bytes", lambda ev: first(ev, "Seg").update(ok=False))
+    variant("canary-gap", lambda ev: first(ev, "Gap").update(pat=False))
+    variant("canary-total", lambda ev: first(ev, "End").update(total=first(ev, "End")["total"] + 4))
+    variant("canary-parse", lambda ev: [e for e in ev if e["ev"] == "PSeg"][-1].update(prefixOk=False))
+    variant("canary-eff", lambda ev: ev[0].update(eff=ev[0]["eff"] + 1024))
+    variant("canary-refused", lambda ev: (ev[0].update(refused=True), ev.__delitem__(slice(1, None))))
+    variant("canary-missing-segment", lambda ev: ev.remove(first(ev, "Seg")))
     rej, _ = tlc.tv("C14", "BimgTrace", variants, env={"TABLE_FILE": table_file})
     want = {x["id"] for x in variants} - {"canary-good"}
     if set(rej) != want:
         raise Machinery(f"canary failed: rejected {sorted(rej)}, expected exactly {sorted(want)}")
-    return f"1 real trace accepted; {len(want)} single-field corruptions of it (offset, gap fill, total, parsed bytes, effective start) rejected"
+    return f"1 spec-generated trace accepted; {len(want)} single-field corruptions of it rejected ({', '.join(sorted(x[7:] for x in want))})"
 
 
 def plan(tier, cases, tables, triples, r):
@@ -625,13 +648,36 @@ def run(tier):
     say(f"[C14] {len(triples)} (family, revision, memory type) triples, {len(tables)} distinct segment tables, payloads built ({v.timer.s()}s)")
 
     # ---- MC + GEN
-    mc = tlc.mc("C14", "BimgMC", "BimgMC.cfg", env={"TABLE_FILE": table_file, "GEN_FULL": "0" if tier == "quick" else "1"}, workers=8, deadlock=False, heap="6g", timeout=900,
-                require_actions=("GRefuse", "GBuild", "Gap", "Seg", "End", "Parse", "ParseSeg", "Done"))
+    actions = ("GRefuse", "GBuild", "Gap", "Seg", "End", "Parse", "ParseSeg", "Done")
+    quick = tier == "quick"
+    mc = tlc.mc("C14", "BimgMC", "BimgMC.cfg", env={"TABLE_FILE": table_file, "GEN_FULL": "0" if quick else "1"}, workers=8, deadlock=False, heap="6g",
+                timeout=900, coverage=not quick, require_actions=() if quick else actions)
     v.add_mc(mc)
     cases = mc.json_prints()
     if len(cases) < 1000 or len({c["tb"] for c in cases}) != len(tables):
         raise Machinery(f"GEN emitted {len(cases)} cases for {len({c['tb'] for c in cases})} of {len(tables)} tables")
-    say(f"[C14] MC/GEN: {mc.distinct} states, {len(cases)} cases, lemmas hold ({v.timer.s()}s)")
+    # non-vacuity without TLC's (expensive) coverage option: every case is a deterministic walk, so the number of times each action
+    # fires follows from the emitted placements, and the sum must be exactly TLC's number of distinct states
+    fires = dict.fromkeys(actions, 0)
+    for c in cases:
+        if c["refused"]:
+            fires["GRefuse"] += 1
+            continue
+        fires["GBuild"] += 1
+        cur = 0
+        for off, n in (p for p in c["place"] if p[0] >= 0):
+            fires["Gap"] += off > cur
+            fires["Seg"] += 1
+            fires["ParseSeg"] += 1
+            cur = off + n
+        for a in ("End", "Parse", "Done"):
+            fires[a] += 1
+    if mc.distinct != len(cases) + sum(fires.values()) or min(fires.values()) == 0:
+        raise Machinery(f"state count {mc.distinct} does not match the walks of the {len(cases)} emitted cases ({fires}): vacuous or duplicated actions")
+    if not quick and any(mc.coverage.get(a, (0, 0))[1] != n for a, n in fires.items()):
+        raise Machinery(f"TLC coverage {mc.coverage} differs from the walks of the emitted cases {fires}")
+    v.extra["action_firings"] = fires
+    say(f"[C14] MC/GEN: {mc.distinct} states, {len(cases)} cases, lemmas hold, every action fires ({v.timer.s()}s)")
 
     # ---- execute on the real BootableImage
     jobs = plan(tier, cases, tables, triples, r)
@@ -655,7 +701,7 @@ def run(tier):
         v.sample({k: t[k] for k in ("tb", "present", "plen", "req", "ev", "info")})
     say(f"[C14] {len(traces)} cases executed on {len(covered)} triples ({v.timer.s()}s)")
 
-    v.extra["canary"] = canary(tables, table_file, traces)
+    v.extra["canary"] = canary(cases, table_file)
     validate(v, tables, table_file, traces)
     parsed = sum(1 for t in traces if t["ev"][-1]["ev"] == "Done")
     v.extra["parsed_back_completely"] = parsed
@@ -665,8 +711,9 @@ def run(tier):
     v.cov["checker_cmd"] = "TLC BimgMC (lemmas over all cases of all tables, case emission) ; TLC BimgTrace (decides every executed case)"
     v.cov["rule"] = (
         f"cases = initial states of BimgMC: for each of the {len(tables)} distinct segment tables of the device database, every subset of optional "
-        "segments x payload length menu (1, size-1, size, up to the next offset; three real container sizes; every XMCD length) x requested start "
-        "(0, every static segment start, one below, one above); thorough executes every case of the full menu; quick uses the menu without "
+        "segments x payload length menu (1, size-1, size, up to the next offset; three real container sizes; shortest / middle / longest XMCD block) x requested start "
+        "(0, every static segment start, one below, one above); thorough executes every case of the full menu (each on at least one triple of its table, triples taken in rotation so that every "
+        "triple gets at least three cases); quick uses the menu without "
         "'size-1' / most 'one below' starts and executes every case with start 0 plus one length assignment per (start, subset), at least one case "
         "per (family, revision, memory type); a case is non-trivial if the real image was built and "
         "read (or the build was refused); distinct by (triple, case, API path)")
